@@ -45,7 +45,7 @@ def mul_pair(rng, w, n, signed):
     return "sq", *([value(rng, w, n)[1]] * 2)
 
 
-def gen(rng, tier):
+def _gen_main(rng, tier):
     reps = 150 if tier == "thorough" else 20
     for cfg in cfgs(tier):
         w, n = wn(cfg)
@@ -72,3 +72,20 @@ def gen(rng, tier):
         for a in range(256):
             for b in range(256):
                 yield f"widening_mul u8x1 {hx(a)} {hx(b)}", "exhaustive8"
+
+
+def gen(rng, tier):
+    yield from _gen_main(rng, tier)
+    yield from _grid(rng, tier)
+
+
+def _grid(rng, tier):
+    lim = 20000 if tier == "thorough" else 700
+    for cfg in GRID_CFGS:
+        for s in "ui":
+            for op in ("overflowing_mul", "saturating_mul"):
+                for a, b in grid_pairs(rng, cfg, lim):
+                    yield f"{op} {s}{cfg} {hx(a)} {hx(b)}", "edge-grid"
+        for a, b in grid_pairs(rng, cfg, lim):
+            yield f"widening_mul u{cfg} {hx(a)} {hx(b)}", "edge-grid"
+            yield f"carrying_mul u{cfg} {hx(a)} {hx(b)} {hx(rng.choice(edge_grid(*wn(cfg))))}", "edge-grid"
